@@ -4,8 +4,9 @@
 //      Geo { off, w, h, stride }   with   grid.ptr == base + off   (element units)
 //      cell(x, y) = off + y * stride + x                      for x < w, y < h
 // Data-structure invariant (what `unsafe fn new` demands from its callers):
-//      wf(geo, len):  empty  ?  off <= len  :  w <= stride && off + (h - 1) * stride + w <= len
-//      i.e. every addressable element is an element of the buffer, and rows do not overlap.
+//      wf(geo, len):  h == 0  ?  off <= len  :  (w == 0 || w <= stride) && off + (h - 1) * stride + w <= len
+//      i.e. every addressable element is an element of the buffer, rows do not overlap (and the row
+//      origins of a zero-width grid stay inside the allocation, see in_alloc below).
 // Every operation is specified from an ARBITRARY well-formed grid (not only from a fresh from_buf), so
 // the per-operation contracts compose inductively over any nesting of subgrid / split / merge / groups:
 //      * each returned grid has exactly the geometry the documentation promises (an exact mapping
@@ -30,18 +31,16 @@
 //     well-formed grid is well-formed and maps (x, y) -> (x0 + x, y0 + y); cell() is injective on a
 //     well-formed grid; the rectangles produced by split / groups partition the parent; merge of
 //     adjacent well-formed grids is well-formed and is their union.  They enumerate the stride
-//     concretely (0..=MAXV) so that every product is linear.
+//     concretely (0..=D::MAXV) so that every product is linear.
 //   * the code harnesses establish, on the real code, that each returned grid has EXACTLY the
 //     specified Geo (pointer and all fields), then `use_lemma!` the well-formedness of that Geo
 //     (discharged by the lemma harness named at the use site, same value domain) and exercise every
 //     accessor of the returned grid under CBMC's pointer checks.
-// Bounded by MAXBUF (geometry) and MAXV (probe values: every dimension, coordinate, offset and stride
+// Bounded by D::MAXBUF (geometry) and D::MAXV (probe values: every dimension, coordinate, offset and stride
 // is a 6-bit value; one-row grids with any usize stride are covered by ms_from_buf_*); complete over
 // element values and everything else within the bound.
 use super::*;
 use std::ops::Bound;
-
-pub(crate) const MAXBUF: usize = 48;
 
 pub(crate) trait Elem: Copy + kani::Arbitrary + 'static {
     fn same(self, o: Self) -> bool;
@@ -57,38 +56,74 @@ impl Elem for f32 {
     }
 }
 
-/// Backing storage: a 32-byte aligned array of MAXBUF symbolic elements; the buffer handed to the
+/// Value domain of a harness: backing buffer of at most D::MAXBUF elements; every dimension,
+/// coordinate, offset and stride is a value 0..=D::MAXV (D::MAXV >= D::MAXBUF: includes out-of-range probes).
+pub(crate) trait Dom: 'static {
+    const MAXBUF: usize;
+    const MAXV: usize;
+    type Store<V: Elem>: Store<V>;
+    fn small() -> usize {
+        (kani::any::<u8>() as usize) & Self::MAXV
+    }
+    fn any_len() -> usize {
+        let len = Self::small();
+        kani::assume(len <= Self::MAXBUF);
+        len
+    }
+}
+
+/// Backing storage: a 32-byte aligned array of D::MAXBUF symbolic elements; the buffer handed to the
 /// grid is its LAST `len` elements, so that an access past the end of the slice is an access past the
 /// end of the object (CBMC's pointer_dereference check); an access before its start is excluded by the
 /// ghost assertions (offsets are unsigned and every accessed address is asserted to be base + cell).
+pub(crate) trait Store<V: Elem> {
+    fn any() -> Self;
+    fn all(&mut self) -> &mut [V];
+    fn window(&mut self, len: usize) -> &mut [V] {
+        let a = self.all();
+        let n = a.len();
+        &mut a[n - len..]
+    }
+}
 #[repr(C, align(32))]
-pub(crate) struct Backing<V>(pub [V; MAXBUF]);
-
-impl<V: Elem> Backing<V> {
-    pub(crate) fn any() -> Self {
-        Backing(kani::any())
+pub(crate) struct Store24<V>(pub [V; 24]);
+#[repr(C, align(32))]
+pub(crate) struct Store48<V>(pub [V; 48]);
+impl<V: Elem> Store<V> for Store24<V> {
+    fn any() -> Self {
+        Store24(kani::any())
     }
-    pub(crate) fn window(&mut self, len: usize) -> &mut [V] {
-        &mut self.0[MAXBUF - len..]
+    fn all(&mut self) -> &mut [V] {
+        &mut self.0
     }
 }
-
-pub(crate) fn any_len() -> usize {
-    let len = small();
-    kani::assume(len <= MAXBUF);
-    len
+impl<V: Elem> Store<V> for Store48<V> {
+    fn any() -> Self {
+        Store48(kani::any())
+    }
+    fn all(&mut self) -> &mut [V] {
+        &mut self.0
+    }
 }
-
-/// probe values: 0..=63 (everything that fits a MAXBUF-element buffer, plus out-of-range probes)
-pub(crate) const MAXV: usize = 63;
-pub(crate) fn small() -> usize {
-    (kani::any::<u8>() & 63) as usize
+/// quick tier: buffer <= 24 elements, 5-bit values
+pub(crate) struct Q;
+impl Dom for Q {
+    const MAXBUF: usize = 24;
+    const MAXV: usize = 31;
+    type Store<V: Elem> = Store24<V>;
+}
+/// thorough tier: buffer <= 48 elements, 6-bit values
+pub(crate) struct T;
+impl Dom for T {
+    const MAXBUF: usize = 48;
+    const MAXV: usize = 63;
+    type Store<V: Elem> = Store48<V>;
 }
 
 /// Use a fact proved by the named lemma harness (same value domain).
 macro_rules! use_lemma {
     ($lemma:ident, $c:expr) => {{
-        let _discharged_by = $lemma; // keeps the name checked by the compiler
+        let _discharged_by = $lemma::<D>; // keeps the name checked by the compiler
         kani::assume($c);
     }};
 }
@@ -105,11 +140,13 @@ impl Geo {
     pub(crate) fn empty(&self) -> bool {
         self.w == 0 || self.h == 0
     }
+    /// rows (even of a zero-width grid) start inside the buffer or one past its end; a grid without
+    /// rows only needs its origin there
     pub(crate) fn wf(&self, len: usize) -> bool {
-        if self.empty() {
+        if self.h == 0 {
             self.off <= len
         } else {
-            self.w <= self.stride && self.off <= len && (self.h == 1 || self.stride <= len)
+            (self.w == 0 || self.w <= self.stride) && self.off <= len && (self.h == 1 || self.stride <= len)
                 && self.off + (self.h - 1) * self.stride + self.w <= len
         }
     }
@@ -122,10 +159,10 @@ impl Geo {
     }
 }
 
-/// A symbolic well-formed geometry (6-bit values; wf bounds everything by MAXBUF except the stride of
-/// a one-row grid, which ranges over 0..=MAXV here and over all of usize in ms_from_buf_*).
-pub(crate) fn any_geo(len: usize) -> Geo {
-    let g = Geo { off: small(), w: small(), h: small(), stride: small() };
+/// A symbolic well-formed geometry (6-bit values; wf bounds everything by D::MAXBUF except the stride of
+/// a one-row grid, which ranges over 0..=D::MAXV here and over all of usize in ms_from_buf_*).
+pub(crate) fn any_geo<D: Dom>(len: usize) -> Geo {
+    let g = Geo { off: D::small(), w: D::small(), h: D::small(), stride: D::small() };
     kani::assume(g.w == 0 || g.w <= g.stride); // asserted by MutableSubgrid::new
     kani::assume(g.wf(len));
     g
@@ -136,10 +173,10 @@ fn geo_of<V>(g: &MutableSubgrid<'_, V>, base: *mut V, expect: &Geo) -> bool {
 }
 
 /// An arbitrary well-formed grid over the buffer (what any composition of the API can produce).
-fn any_grid<'a, V: Elem>(buf: &'a mut [V]) -> (MutableSubgrid<'a, V>, Geo, *mut V, usize) {
+fn any_grid<'a, V: Elem, D: Dom>(buf: &'a mut [V]) -> (MutableSubgrid<'a, V>, Geo, *mut V, usize) {
     let len = buf.len();
     let base = buf.as_mut_ptr();
-    let geo = any_geo(len);
+    let geo = any_geo::<D>(len);
     let mut g = unsafe { MutableSubgrid::new(NonNull::new(base.wrapping_add(geo.off)).unwrap(), geo.w, geo.h, geo.stride) };
     if kani::any() {
         g.split_base = Some(NonNull::new(base).unwrap().cast());
@@ -148,14 +185,17 @@ fn any_grid<'a, V: Elem>(buf: &'a mut [V]) -> (MutableSubgrid<'a, V>, Geo, *mut 
 }
 
 /// Exercise every accessor of `g` at symbolic coordinates; `geo` is its expected abstract view.
-fn check_access<V: Elem>(g: &mut MutableSubgrid<'_, V>, geo: &Geo, base: *mut V, len: usize) {
+/// Returns (wrote, via_row) so that callers can place their vacuity guards.
+fn check_access<V: Elem, D: Dom>(g: &mut MutableSubgrid<'_, V>, geo: &Geo, base: *mut V, len: usize) -> (bool, bool) {
     assert!(geo_of(g, base, geo), "[C02] subgrid has exactly the specified geometry (exact child -> parent mapping)");
     assert!(g.width() == geo.w && g.height() == geo.h);
-    let (x, y) = (small(), small());
+    let (x, y) = (D::small(), D::small());
     let inside = x < geo.w && y < geo.h;
-    let k = small(); // an arbitrary buffer element, observed around the write
-    kani::assume(k < len);
-    let old_k = unsafe { base.add(k).read() };
+    // an arbitrary buffer element, observed around the write (an empty buffer has none: then the grid is
+    // empty, nothing is read or written, and `k` is never compared)
+    let k = D::small();
+    kani::assume(k < len || len == 0);
+    let old_k: V = if len > 0 { unsafe { base.add(k).read() } } else { kani::any() };
     // shared accessors
     match g.try_get_ref(x, y) {
         Some(r) => {
@@ -175,7 +215,7 @@ fn check_access<V: Elem>(g: &mut MutableSubgrid<'_, V>, geo: &Geo, base: *mut V,
             assert!(y < geo.h, "[C02] try_get_row is Some only for a row of the grid");
             assert!(row.len() == geo.w && row.as_ptr() == base.wrapping_add(geo.cell(0, y)) as *const V,
                 "[C02] row y is the w elements starting at off + y * stride");
-            let i = small();
+            let i = D::small();
             if i < row.len() {
                 let v = row[i];
                 assert!(geo.cell(i, y) < len, "[C02] row elements are buffer elements");
@@ -211,21 +251,27 @@ fn check_access<V: Elem>(g: &mut MutableSubgrid<'_, V>, geo: &Geo, base: *mut V,
             None => assert!(!inside),
         }
     }
-    let now_k = unsafe { base.add(k).read() };
+    assert!(!wrote || len > 0, "[C02] nothing can be written through a grid over an empty buffer");
+    let now_k: V = if len > 0 { unsafe { base.add(k).read() } } else { old_k };
     if wrote && geo.cell(x, y) == k {
         assert!(now_k.same(val), "[C02] a write through the subgrid lands on the mapped buffer element");
     } else {
         assert!(now_k.same(old_k), "[C02] a write through the subgrid changes no other buffer element");
     }
-    kani::cover!(wrote && via_row);
-    kani::cover!(wrote && !via_row && y > 0 && x > 0);
+    (wrote, via_row)
+}
+
+/// vacuity guards for a harness in which the checked grid can be non-empty
+fn cover_access(r: (bool, bool), relevant: bool) {
+    kani::cover!(!relevant || (r.0 && r.1)); // a write through a mutable row happened
+    kani::cover!(!relevant || (r.0 && !r.1)); // a write through get_mut happened
 }
 
 // ------------------------------------------------------------------------------------------------
 // Lemmas: pure arithmetic over Geo, stride enumerated concretely
 // ------------------------------------------------------------------------------------------------
-fn any_geo_with_stride(len: usize, stride: usize) -> Geo {
-    let g = Geo { off: small(), w: small(), h: small(), stride };
+fn any_geo_with_stride<D: Dom>(len: usize, stride: usize) -> Geo {
+    let g = Geo { off: D::small(), w: D::small(), h: D::small(), stride };
     kani::assume(g.w == 0 || g.w <= g.stride);
     kani::assume(g.wf(len));
     g
@@ -233,14 +279,12 @@ fn any_geo_with_stride(len: usize, stride: usize) -> Geo {
 
 /// A sub-rectangle (x0, y0, w, h) of a well-formed grid: well-formed (if not empty), element (x, y)
 /// is parent element (x0 + x, y0 + y), which is inside the parent.
-#[kani::proof]
-#[kani::unwind(66)]
-fn lemma_sub() {
-    let len = any_len();
-    let (x0, y0, w, h, x, y) = (small(), small(), small(), small(), small(), small());
+fn lemma_sub<D: Dom>() {
+    let len = D::any_len();
+    let (x0, y0, w, h, x, y) = (D::small(), D::small(), D::small(), D::small(), D::small(), D::small());
     let mut stride = 0;
-    while stride <= MAXV {
-        let p = any_geo_with_stride(len, stride);
+    while stride <= D::MAXV {
+        let p = any_geo_with_stride::<D>(len, stride);
         if x0 + w <= p.w && y0 + h <= p.h {
             let c = p.sub(x0, y0, w, h);
             assert!(c.empty() || c.wf(len), "[C02] lemma_sub: a non-empty sub-rectangle of a well-formed grid is well-formed");
@@ -255,14 +299,12 @@ fn lemma_sub() {
 
 /// cell() is injective on a well-formed grid: distinct coordinates are distinct buffer elements.
 /// Hence rectangles that are disjoint in parent coordinates are disjoint in memory.
-#[kani::proof]
-#[kani::unwind(66)]
-fn lemma_injective() {
-    let len = any_len();
-    let (x1, y1, x2, y2) = (small(), small(), small(), small());
+fn lemma_injective<D: Dom>() {
+    let len = D::any_len();
+    let (x1, y1, x2, y2) = (D::small(), D::small(), D::small(), D::small());
     let mut stride = 0;
-    while stride <= MAXV {
-        let p = any_geo_with_stride(len, stride);
+    while stride <= D::MAXV {
+        let p = any_geo_with_stride::<D>(len, stride);
         if x1 < p.w && y1 < p.h && x2 < p.w && y2 < p.h && (x1 != x2 || y1 != y2) {
             assert!(p.cell(x1, y1) != p.cell(x2, y2), "[C02] lemma_injective: distinct coordinates of a well-formed grid are distinct buffer elements");
         }
@@ -272,9 +314,8 @@ fn lemma_injective() {
 
 /// split at `at`: the two rectangles [0, at) and [at, ..) partition the parent's coordinates
 /// (linear; with lemma_sub and lemma_injective: inside the parent, disjoint in memory, cover).
-#[kani::proof]
-fn lemma_split_partition() {
-    let (pw, ph, at, px, py) = (small(), small(), small(), small(), small());
+fn lemma_split_partition<D: Dom>() {
+    let (pw, ph, at, px, py) = (D::small(), D::small(), D::small(), D::small(), D::small());
     let vertical: bool = kani::any();
     kani::assume(at <= if vertical { ph } else { pw });
     // rectangles in parent coordinates: (x0, y0, w, h)
@@ -290,15 +331,14 @@ fn lemma_split_partition() {
 
 /// groups: rectangle (gx, gy) = [min(gx*gw, w), +min(gw, rest)) x [min(gy*gh, h), +min(gh, rest)):
 /// sub-rectangles of the parent, pairwise disjoint in coordinates; (px / gw, py / gh) contains (px, py).
-#[kani::proof]
-fn lemma_groups_partition() {
-    let (pw, ph, gw, gh) = (small(), small(), small(), small());
+fn lemma_groups_partition<D: Dom>() {
+    let (pw, ph, gw, gh) = (D::small(), D::small(), D::small(), D::small());
     kani::assume(gw >= 1 && gh >= 1);
     let rect = |gx: usize, gy: usize| {
         let (x0, y0) = ((gx * gw).min(pw), (gy * gh).min(ph));
         (x0, y0, (pw - x0).min(gw), (ph - y0).min(gh))
     };
-    let (gx, gy, hx, hy, px, py) = (small(), small(), small(), small(), small(), small());
+    let (gx, gy, hx, hy, px, py) = (D::small(), D::small(), D::small(), D::small(), D::small(), D::small());
     let (a, b) = (rect(gx, gy), rect(hx, hy));
     let inside = |r: (usize, usize, usize, usize)| px >= r.0 && px - r.0 < r.2 && py >= r.1 && py - r.1 < r.3;
     assert!(a.0 + a.2 <= pw && a.1 + a.3 <= ph, "[C02] lemma_groups: every group is a sub-rectangle of the parent");
@@ -316,16 +356,14 @@ fn lemma_groups_partition() {
 }
 
 /// merge: adjacent well-formed grids give a well-formed grid that is exactly their union.
-#[kani::proof]
-#[kani::unwind(66)]
-fn lemma_merge() {
-    let len = any_len();
+fn lemma_merge<D: Dom>() {
+    let len = D::any_len();
     let vertical: bool = kani::any();
-    let (x, y) = (small(), small());
+    let (x, y) = (D::small(), D::small());
     let mut stride = 0;
-    while stride <= MAXV {
-        let a = any_geo_with_stride(len, stride);
-        let b = any_geo_with_stride(len, stride);
+    while stride <= D::MAXV {
+        let a = any_geo_with_stride::<D>(len, stride);
+        let b = any_geo_with_stride::<D>(len, stride);
         let m = if vertical {
             kani::assume(a.w == b.w && b.off == a.cell(0, a.h));
             Geo { off: a.off, w: a.w, h: a.h + b.h, stride }
@@ -350,16 +388,14 @@ fn lemma_merge() {
 
 /// vector view of an f32 grid (4 lanes): origin, width and stride divisible by 4 => the grid of
 /// vectors over len / 4 vector slots is well-formed and vector (x, y) is f32 elements (4x..4x+3, y).
-#[kani::proof]
-#[kani::unwind(18)]
-fn lemma_vectored() {
-    let len = any_len();
-    let pad = small(); // elements before the buffer inside the 16-byte aligned backing object
+fn lemma_vectored<D: Dom>() {
+    let len = D::any_len();
+    let pad = D::small(); // elements before the buffer inside the 16-byte aligned backing object
     kani::assume((pad + len) % 4 == 0);
-    let (x, y) = (small(), small());
+    let (x, y) = (D::small(), D::small());
     let mut s4 = 0;
-    while s4 <= MAXV / 4 {
-        let g = any_geo_with_stride(len, s4 * 4);
+    while s4 <= D::MAXV / 4 {
+        let g = any_geo_with_stride::<D>(len, s4 * 4);
         if (pad + g.off) % 4 == 0 && g.w % 4 == 0 && !g.empty() {
             // in vector units, relative to the aligned object start
             let v = Geo { off: (pad + g.off) / 4, w: g.w / 4, h: g.h, stride: s4 };
@@ -376,18 +412,19 @@ fn lemma_vectored() {
 // ------------------------------------------------------------------------------------------------
 // from_buf / new / empty
 // ------------------------------------------------------------------------------------------------
-fn from_buf_ok<V: Elem>() {
-    let mut data = Backing::<V>::any();
-    let len = any_len();
+fn from_buf_ok<V: Elem, D: Dom>() {
+    let mut data = <D::Store<V> as Store<V>>::any();
+    let len = D::any_len();
     let buf = data.window(len);
     let base = buf.as_mut_ptr();
-    let (w, h, s6) = (small(), small(), small());
+    let (w, h, s6) = (D::small(), D::small(), D::small());
     let big: usize = kani::any();
     let stride = if h <= 1 { big } else { s6 }; // one-row grids: any stride at all
     // documented precondition of from_buf
     kani::assume(w <= stride);
     if w == 0 || h == 0 {
         kani::assume(len == 0);
+        kani::assume(h <= 1 || stride == 0); // in_alloc (header): row origins of a zero-width grid over an empty buffer
     } else {
         kani::assume(stride * (h - 1) + w <= len);
     }
@@ -396,21 +433,21 @@ fn from_buf_ok<V: Elem>() {
     let geo = Geo { off: 0, w, h, stride };
     assert!(geo.empty() || (geo.w <= geo.stride && (geo.h - 1) * geo.stride + geo.w <= len),
         "[C02] every addressable element of the grid is an element of the buffer, rows do not overlap");
-    check_access(&mut g, &geo, base, len);
-    kani::cover!(h > 1 && w > 1 && stride > w && len == MAXBUF);
+    cover_access(check_access::<_, D>(&mut g, &geo, base, len), true);
+    kani::cover!(h > 1 && w > 1 && stride > w && len == D::MAXBUF);
     kani::cover!(len == 0 && h > 0);
-    kani::cover!(h == 1 && stride > MAXBUF);
+    kani::cover!(h == 1 && stride > D::MAXBUF);
     let e = MutableSubgrid::<V>::empty();
     assert!(e.width() == 0 && e.height() == 0 && e.try_get_ref(0, 0).is_none() && e.try_get_row(0).is_none(),
         "[C02] the empty grid has no addressable element");
 }
 
 /// from_buf returns only for geometries whose area is inside the buffer.
-fn from_buf_rejects<V: Elem>() {
-    let mut data = Backing::<V>::any();
-    let len = any_len();
+fn from_buf_rejects<V: Elem, D: Dom>() {
+    let mut data = <D::Store<V> as Store<V>>::any();
+    let len = D::any_len();
     let buf = data.window(len);
-    let (w, h, stride) = (small(), small(), small());
+    let (w, h, stride) = (D::small(), D::small(), D::small());
     let g = MutableSubgrid::from_buf(buf, w, h, stride);
     assert!(g.width == w && g.height == h && g.stride == stride);
     assert!(w <= stride && (w == 0 || h == 0 || stride * (h - 1) + w <= len),
@@ -420,8 +457,8 @@ fn from_buf_rejects<V: Elem>() {
 // ------------------------------------------------------------------------------------------------
 // subgrid(range_x, range_y)
 // ------------------------------------------------------------------------------------------------
-fn any_bound() -> Bound<usize> {
-    let v = small();
+fn any_bound<D: Dom>() -> Bound<usize> {
+    let v = D::small();
     match kani::any::<u8>() % 3 {
         0 => Bound::Included(v),
         1 => Bound::Excluded(v),
@@ -445,10 +482,10 @@ fn end_of(b: &Bound<usize>, full: usize) -> usize {
     }
 }
 
-fn subgrid_ok<V: Elem>() {
-    let mut data = Backing::<V>::any();
-    let (g, geo, base, len) = any_grid(data.window(any_len()));
-    let (xs, xe, ys, ye) = (any_bound(), any_bound(), any_bound(), any_bound());
+fn subgrid_ok<V: Elem, D: Dom>() {
+    let mut data = <D::Store<V> as Store<V>>::any();
+    let (g, geo, base, len) = any_grid::<_, D>(data.window(D::any_len()));
+    let (xs, xe, ys, ye) = (any_bound::<D>(), any_bound::<D>(), any_bound::<D>(), any_bound::<D>());
     let (left, right, top, bottom) = (start_of(&xs), end_of(&xe, geo.w), start_of(&ys), end_of(&ye, geo.h));
     // documented precondition: the range is inside the grid
     kani::assume(left <= right && right <= geo.w && top <= bottom && bottom <= geo.h);
@@ -458,17 +495,17 @@ fn subgrid_ok<V: Elem>() {
     use_lemma!(lemma_sub, cgeo.empty() || cgeo.wf(len));
     let mut c = g.subgrid((xs, xe), (ys, ye));
     assert!(c.split_base.is_none());
-    check_access(&mut c, &cgeo, base, len);
+    cover_access(check_access::<_, D>(&mut c, &cgeo, base, len), true);
     kani::cover!(cgeo.w > 0 && cgeo.h > 1 && left > 0 && top > 0);
     kani::cover!(cgeo.w == 0);
     kani::cover!(cgeo.h == 0);
     kani::cover!(matches!(xs, Bound::Excluded(_)) && matches!(ye, Bound::Included(_)) && !cgeo.empty());
 }
 
-fn subgrid_rejects<V: Elem>() {
-    let mut data = Backing::<V>::any();
-    let (g, geo, _base, _len) = any_grid(data.window(any_len()));
-    let (xs, xe, ys, ye) = (any_bound(), any_bound(), any_bound(), any_bound());
+fn subgrid_rejects<V: Elem, D: Dom>() {
+    let mut data = <D::Store<V> as Store<V>>::any();
+    let (g, geo, _base, _len) = any_grid::<_, D>(data.window(D::any_len()));
+    let (xs, xe, ys, ye) = (any_bound::<D>(), any_bound::<D>(), any_bound::<D>(), any_bound::<D>());
     let (left, right, top, bottom) = (start_of(&xs), end_of(&xe, geo.w), start_of(&ys), end_of(&ye, geo.h));
     let c = g.subgrid((xs, xe), (ys, ye));
     assert!(left <= right && right <= geo.w && top <= bottom && bottom <= geo.h,
@@ -479,10 +516,10 @@ fn subgrid_rejects<V: Elem>() {
 // ------------------------------------------------------------------------------------------------
 // split_horizontal / split_vertical (borrowing and in place)
 // ------------------------------------------------------------------------------------------------
-fn split_ok<V: Elem>(vertical: bool, in_place: bool) {
-    let mut data = Backing::<V>::any();
-    let (mut g, geo, base, len) = any_grid(data.window(any_len()));
-    let at = small();
+fn split_ok<V: Elem, D: Dom>(vertical: bool, in_place: bool) {
+    let mut data = <D::Store<V> as Store<V>>::any();
+    let (mut g, geo, base, len) = any_grid::<_, D>(data.window(D::any_len()));
+    let at = D::small();
     // documented precondition
     kani::assume(at <= if vertical { geo.h } else { geo.w });
     let expect_base = g.split_base.unwrap_or(g.ptr.cast());
@@ -495,24 +532,19 @@ fn split_ok<V: Elem>(vertical: bool, in_place: bool) {
     kani::assume(bgeo.off <= len); // in_alloc, see header (only restricts an empty second part)
     use_lemma!(lemma_sub, (ageo.empty() || ageo.wf(len)) && (bgeo.empty() || bgeo.wf(len)));
     let first: bool = kani::any();
+    let cgeo = if first { ageo } else { bgeo };
     if in_place {
         let mut b = if vertical { g.split_vertical_in_place(at) } else { g.split_horizontal_in_place(at) };
         assert!(g.split_base == Some(expect_base) && b.split_base == Some(expect_base), "[C02] both parts remember the split base");
         assert!(geo_of(&g, base, &ageo) && geo_of(&b, base, &bgeo), "[C02] split parts have exactly the specified geometry");
-        if first {
-            check_access(&mut g, &ageo, base, len);
-        } else {
-            check_access(&mut b, &bgeo, base, len);
-        }
+        let c = if first { &mut g } else { &mut b };
+        cover_access(check_access::<_, D>(c, &cgeo, base, len), true);
     } else {
         let (mut a, mut b) = if vertical { g.split_vertical(at) } else { g.split_horizontal(at) };
         assert!(a.split_base == Some(expect_base) && b.split_base == Some(expect_base), "[C02] both parts remember the split base");
         assert!(geo_of(&a, base, &ageo) && geo_of(&b, base, &bgeo), "[C02] split parts have exactly the specified geometry");
-        if first {
-            check_access(&mut a, &ageo, base, len);
-        } else {
-            check_access(&mut b, &bgeo, base, len);
-        }
+        let c = if first { &mut a } else { &mut b };
+        cover_access(check_access::<_, D>(c, &cgeo, base, len), true);
     }
     kani::cover!(at > 0 && !ageo.empty() && !bgeo.empty() && bgeo.h > 1 && first);
     kani::cover!(at > 0 && !ageo.empty() && !bgeo.empty() && bgeo.h > 1 && !first);
@@ -520,10 +552,10 @@ fn split_ok<V: Elem>(vertical: bool, in_place: bool) {
     kani::cover!(bgeo.empty() && !geo.empty());
 }
 
-fn split_rejects<V: Elem>() {
-    let mut data = Backing::<V>::any();
-    let (mut g, geo, _base, _len) = any_grid(data.window(any_len()));
-    let at = small();
+fn split_rejects<V: Elem, D: Dom>() {
+    let mut data = <D::Store<V> as Store<V>>::any();
+    let (mut g, geo, _base, _len) = any_grid::<_, D>(data.window(D::any_len()));
+    let at = D::small();
     match kani::any::<u8>() % 4 {
         0 => {
             let _ = g.split_horizontal(at);
@@ -548,10 +580,10 @@ fn split_rejects<V: Elem>() {
 // merge_horizontal_in_place / merge_vertical_in_place
 // ------------------------------------------------------------------------------------------------
 /// merge undoes split: the merged grid is the original one.
-fn merge_ok<V: Elem>(vertical: bool) {
-    let mut data = Backing::<V>::any();
-    let (mut g, geo, base, len) = any_grid(data.window(any_len()));
-    let at = small();
+fn merge_ok<V: Elem, D: Dom>(vertical: bool) {
+    let mut data = <D::Store<V> as Store<V>>::any();
+    let (mut g, geo, base, len) = any_grid::<_, D>(data.window(D::any_len()));
+    let at = D::small();
     kani::assume(at <= if vertical { geo.h } else { geo.w });
     let bgeo = if vertical { geo.sub(0, at, geo.w, geo.h - at) } else { geo.sub(at, 0, geo.w - at, geo.h) };
     kani::assume(bgeo.off <= len); // in_alloc
@@ -562,18 +594,18 @@ fn merge_ok<V: Elem>(vertical: bool) {
         let b = g.split_horizontal_in_place(at);
         g.merge_horizontal_in_place(b);
     }
-    check_access(&mut g, &geo, base, len);
+    cover_access(check_access::<_, D>(&mut g, &geo, base, len), true);
     kani::cover!(at > 0 && !geo.empty() && geo.h > 1 && at < if vertical { geo.h } else { geo.w });
 }
 
 /// The guard: for ANY two well-formed grids (any split_base), merge returns only if the second is
 /// exactly the right/bottom neighbour; then the result is the Geo of lemma_merge (exactly the union).
-fn merge_guard<V: Elem>(vertical: bool) {
-    let mut data = Backing::<V>::any();
-    let len = any_len();
+fn merge_guard<V: Elem, D: Dom>(vertical: bool) {
+    let mut data = <D::Store<V> as Store<V>>::any();
+    let len = D::any_len();
     let buf = data.window(len);
     let base = buf.as_mut_ptr();
-    let (ag, bg) = (any_geo(len), any_geo(len));
+    let (ag, bg) = (any_geo::<D>(len), any_geo::<D>(len));
     let mk = |geo: &Geo| {
         let mut g = unsafe { MutableSubgrid::<V>::new(NonNull::new(base.wrapping_add(geo.off)).unwrap(), geo.w, geo.h, geo.stride) };
         g.split_base = match kani::any::<u8>() % 3 {
@@ -599,75 +631,103 @@ fn merge_guard<V: Elem>(vertical: bool) {
         Geo { off: ag.off, w: ag.w + bg.w, h: ag.h, stride: ag.stride }
     };
     use_lemma!(lemma_merge, m.empty() || m.wf(len));
-    check_access(&mut a, &m, base, len);
+    cover_access(check_access::<_, D>(&mut a, &m, base, len), true);
     kani::cover!(!ag.empty() && !bg.empty() && ag.h > 1);
 }
 
 // ------------------------------------------------------------------------------------------------
 // into_groups / into_groups_with_fixed_count
 // ------------------------------------------------------------------------------------------------
-pub(crate) const MAXGROUPS: usize = 12;
+// Measured limits: a symbolic group count makes Vec::with_capacity / push explode (CBMC out of memory
+// at 4 x 4), and into_groups divides by the symbolic group size (64-bit divider: does not close).
+// Therefore: into_groups_with_fixed_count is proved for CONCRETE counts COLS x ROWS (several
+// instantiations) over symbolic geometry and symbolic group sizes (including 0 and sizes larger than
+// the grid); into_groups is proved for CONCRETE (width, height, group width, group height) tuples over
+// symbolic origin, stride, buffer and contents; lemma_groups_partition connects the two (the counts
+// ceil(w/gw) x ceil(h/gh) cover the parent).
 
-fn groups_ok<V: Elem>(fixed: bool) {
-    let mut data = Backing::<V>::any();
-    let (g, geo, base, len) = any_grid(data.window(any_len()));
-    let (gw, gh) = (small(), small());
-    kani::assume(gw >= 1 && gh >= 1); // documented precondition: nonzero
-    let expect_base = g.split_base.unwrap_or(g.ptr.cast());
-    // the group grid (8-bit division)
-    let (num_cols, num_rows) = if fixed {
-        (small(), small())
-    } else {
-        ((geo.w as u8).div_ceil(gw as u8) as usize, (geo.h as u8).div_ceil(gh as u8) as usize)
-    };
-    kani::assume(num_rows <= MAXGROUPS && num_cols <= MAXGROUPS && num_cols * num_rows <= MAXGROUPS);
-    // in_alloc (see header): the origin of the last row / column of groups is formed with ptr.add
-    if num_rows > 0 {
-        let ymax = ((num_rows - 1) * gh).min(geo.h);
-        let xmax = if num_cols > 0 { ((num_cols - 1) * gw).min(geo.w) } else { 0 };
-        kani::assume(geo.cell(xmax, ymax) <= len);
-    }
-    let mut groups = if fixed {
-        g.into_groups_with_fixed_count(gw, gh, num_cols, num_rows)
-    } else {
-        g.into_groups(gw, gh)
-    };
-    assert!(groups.len() == num_cols * num_rows, "[C02] one group per cell of the group grid, row-first");
-    // any group: exactly the rectangle of lemma_groups_partition (inside the parent, pairwise disjoint, covering)
-    let (gx, gy) = (small(), small());
-    if gx < num_cols && gy < num_rows {
-        let (x0, y0) = ((gx * gw).min(geo.w), (gy * gh).min(geo.h));
-        let cgeo = geo.sub(x0, y0, (geo.w - x0).min(gw), (geo.h - y0).min(gh));
-        use_lemma!(lemma_sub, cgeo.empty() || cgeo.wf(len));
-        let grp = &mut groups[gy * num_cols + gx];
-        assert!(grp.split_base == Some(expect_base));
-        check_access(grp, &cgeo, base, len);
-        kani::cover!(!cgeo.empty() && gx > 0 && gy > 0);
-        kani::cover!(!cgeo.empty() && cgeo.w < gw && cgeo.h < gh && gx > 0); // truncated edge group
-        kani::cover!(cgeo.empty() && !geo.empty());
-    }
+/// the specified geometry of group (gx, gy): the rectangle clamped to the parent
+fn group_geo(geo: &Geo, gw: usize, gh: usize, gx: usize, gy: usize) -> Geo {
+    let (x0, y0) = ((gx * gw).min(geo.w), (gy * gh).min(geo.h));
+    geo.sub(x0, y0, (geo.w - x0).min(gw), (geo.h - y0).min(gh))
 }
 
-fn groups_rejects<V: Elem>() {
-    let mut data = Backing::<V>::any();
-    let (g, _geo, _base, _len) = any_grid(data.window(any_len()));
-    let (gw, gh) = (small(), small());
-    kani::assume(gw == 0 || gh == 0);
-    let _ = g.into_groups(gw, gh);
-    assert!(false, "[C02] into_groups must reject a zero group size");
+fn check_groups<V: Elem, D: Dom>(groups: &mut Vec<MutableSubgrid<'_, V>>, geo: &Geo, base: *mut V, len: usize,
+                                 gw: usize, gh: usize, num_cols: usize, num_rows: usize, expect_base: NonNull<()>, concrete_dims: bool) {
+    assert!(groups.len() == num_cols * num_rows, "[C02] one group per cell of the group grid, row-first");
+    // any group: exactly the rectangle of lemma_groups_partition (inside the parent, pairwise disjoint, covering)
+    let (gx, gy) = (D::small(), D::small());
+    let mut wrote = (false, false);
+    let mut nonempty_far = false;
+    let mut truncated = false;
+    if gx < num_cols && gy < num_rows {
+        let cgeo = group_geo(geo, gw, gh, gx, gy);
+        use_lemma!(lemma_sub, cgeo.empty() || cgeo.wf(len));
+        let grp = &mut groups[gy * num_cols + gx];
+        assert!(grp.split_base == Some(expect_base), "[C02] groups remember the split base");
+        let r = check_access::<_, D>(grp, &cgeo, base, len);
+        wrote = r;
+        nonempty_far = !cgeo.empty() && (gx > 0 || num_cols < 2) && (gy > 0 || num_rows < 2);
+        truncated = !cgeo.empty() && (cgeo.w < gw || cgeo.h < gh); // truncated edge group
+    }
+    let relevant = num_cols > 0 && num_rows > 0 && (geo.w > 0 || !concrete_dims);
+    cover_access(wrote, relevant);
+    kani::cover!(!relevant || nonempty_far);
+    kani::cover!(!relevant || truncated || (concrete_dims && geo.w % gw.max(1) == 0 && geo.h % gh.max(1) == 0));
+}
+
+fn groups_fixed_ok<V: Elem, D: Dom, const COLS: usize, const ROWS: usize>() {
+    let mut data = <D::Store<V> as Store<V>>::any();
+    let (g, geo, base, len) = any_grid::<_, D>(data.window(D::any_len()));
+    let (gw, gh) = (D::small(), D::small());
+    let expect_base = g.split_base.unwrap_or(g.ptr.cast());
+    // in_alloc (see header): the origin of the last row / column of groups is formed with ptr.add
+    if ROWS > 0 {
+        let ymax = ((ROWS - 1) * gh).min(geo.h);
+        let xmax = if COLS > 0 { ((COLS - 1) * gw).min(geo.w) } else { 0 };
+        kani::assume(geo.cell(xmax, ymax) <= len);
+    }
+    let mut groups = g.into_groups_with_fixed_count(gw, gh, COLS, ROWS);
+    check_groups::<V, D>(&mut groups, &geo, base, len, gw, gh, COLS, ROWS, expect_base, false);
+    kani::cover!(gw == 0 && geo.w > 0 && geo.h > 0);
+    kani::cover!(COLS == 0 || ROWS == 0 || (COLS * gw < geo.w && ROWS * gh < geo.h)); // truncated: the groups do not reach the far edges
+    kani::cover!(COLS < 2 || (gw >= geo.w && !geo.empty())); // groups out of range are empty
+}
+
+fn groups_ok<V: Elem, D: Dom, const W: usize, const H: usize, const GW: usize, const GH: usize>() {
+    let mut data = <D::Store<V> as Store<V>>::any();
+    let buf = data.window(D::any_len());
+    let len = buf.len();
+    let base = buf.as_mut_ptr();
+    let geo = Geo { off: D::small(), w: W, h: H, stride: D::small() };
+    kani::assume((W == 0 || W <= geo.stride) && geo.wf(len));
+    let mut g = unsafe { MutableSubgrid::new(NonNull::new(base.wrapping_add(geo.off)).unwrap(), geo.w, geo.h, geo.stride) };
+    if kani::any() {
+        g.split_base = Some(NonNull::new(base).unwrap().cast());
+    }
+    let expect_base = g.split_base.unwrap_or(g.ptr.cast());
+    let mut groups = g.into_groups(GW, GH);
+    check_groups::<V, D>(&mut groups, &geo, base, len, GW, GH, W.div_ceil(GW), H.div_ceil(GH), expect_base, true);
+}
+
+fn groups_rejects<V: Elem, D: Dom, const GW: usize, const GH: usize>() {
+    let mut data = <D::Store<V> as Store<V>>::any();
+    let (g, _geo, _base, _len) = any_grid::<_, D>(data.window(D::any_len()));
+    let _ = g.into_groups(GW, GH);
+    assert!(false, "[C02] into_groups must reject a zero group size (no division by zero)");
 }
 
 // ------------------------------------------------------------------------------------------------
 // swap
 // ------------------------------------------------------------------------------------------------
-fn swap_ok<V: Elem>() {
-    let mut data = Backing::<V>::any();
-    let (mut g, geo, base, len) = any_grid(data.window(any_len()));
-    let (ax, ay, bx, by) = (small(), small(), small(), small());
+fn swap_ok<V: Elem, D: Dom>() {
+    let mut data = <D::Store<V> as Store<V>>::any();
+    let (mut g, geo, base, len) = any_grid::<_, D>(data.window(D::any_len()));
+    let (ax, ay, bx, by) = (D::small(), D::small(), D::small(), D::small());
     kani::assume(ax < geo.w && ay < geo.h && bx < geo.w && by < geo.h); // documented precondition
     let (ia, ib) = (geo.cell(ax, ay), geo.cell(bx, by));
     assert!(ia < len && ib < len, "[C02] swapped elements are buffer elements");
-    let k = small();
+    let k = D::small();
     kani::assume(k < len);
     let (old_a, old_b, old_k) = unsafe { (base.add(ia).read(), base.add(ib).read(), base.add(k).read()) };
     g.swap((ax, ay), (bx, by));
@@ -680,10 +740,10 @@ fn swap_ok<V: Elem>() {
     kani::cover!(ia == ib);
 }
 
-fn swap_rejects<V: Elem>() {
-    let mut data = Backing::<V>::any();
-    let (mut g, geo, _base, _len) = any_grid(data.window(any_len()));
-    let (ax, ay, bx, by) = (small(), small(), small(), small());
+fn swap_rejects<V: Elem, D: Dom>() {
+    let mut data = <D::Store<V> as Store<V>>::any();
+    let (mut g, geo, _base, _len) = any_grid::<_, D>(data.window(D::any_len()));
+    let (ax, ay, bx, by) = (D::small(), D::small(), D::small(), D::small());
     g.swap((ax, ay), (bx, by));
     assert!(ax < geo.w && ay < geo.h && bx < geo.w && by < geo.h, "[C02] swap accepts only coordinates inside the grid");
 }
@@ -691,18 +751,18 @@ fn swap_rejects<V: Elem>() {
 // ------------------------------------------------------------------------------------------------
 // borrow_mut / as_shared / into_i32 / as_vectored
 // ------------------------------------------------------------------------------------------------
-fn reborrow_ok<V: Elem>() {
-    let mut data = Backing::<V>::any();
-    let (mut g, geo, base, len) = any_grid(data.window(any_len()));
+fn reborrow_ok<V: Elem, D: Dom>() {
+    let mut data = <D::Store<V> as Store<V>>::any();
+    let (mut g, geo, base, len) = any_grid::<_, D>(data.window(D::any_len()));
     if kani::any() {
         let mut r = g.borrow_mut();
         assert!(r.split_base.is_none());
-        check_access(&mut r, &geo, base, len);
+        cover_access(check_access::<_, D>(&mut r, &geo, base, len), true);
         return;
     }
     let s = g.as_shared();
     assert!(s.width() == geo.w && s.height() == geo.h);
-    let (x, y) = (small(), small());
+    let (x, y) = (D::small(), D::small());
     match s.try_get_ref(x, y) {
         Some(r) => {
             assert!(x < geo.w && y < geo.h && geo.cell(x, y) < len && std::ptr::eq(r, base.wrapping_add(geo.cell(x, y))),
@@ -715,7 +775,7 @@ fn reborrow_ok<V: Elem>() {
         Some(row) => {
             assert!(y < geo.h && row.len() == geo.w && row.as_ptr() == base.wrapping_add(geo.cell(0, y)) as *const V,
                 "[C02] as_shared rows are the same rows");
-            let i = small();
+            let i = D::small();
             if i < row.len() {
                 let _v = row[i];
             }
@@ -724,10 +784,10 @@ fn reborrow_ok<V: Elem>() {
     }
 }
 
-fn into_i32_ok() {
-    let mut data = Backing::<f32>::any();
-    let (g, geo, base, len) = any_grid(data.window(any_len()));
-    let (x, y) = (small(), small());
+fn into_i32_ok<D: Dom>() {
+    let mut data = <D::Store<f32> as Store<f32>>::any();
+    let (g, geo, base, len) = any_grid::<_, D>(data.window(D::any_len()));
+    let (x, y) = (D::small(), D::small());
     let before = g.try_get_ref(x, y).map(|v| v.to_bits());
     let mut gi = g.into_i32();
     assert!(gi.ptr.as_ptr() == base.wrapping_add(geo.off) as *mut i32 && gi.width == geo.w && gi.height == geo.h && gi.stride == geo.stride,
@@ -742,7 +802,7 @@ fn into_i32_ok() {
     }
     if let Some(row) = gi.try_get_row(y) {
         assert!(row.len() == geo.w);
-        let i = small();
+        let i = D::small();
         if i < row.len() {
             let _v = row[i];
         }
@@ -750,20 +810,20 @@ fn into_i32_ok() {
 }
 
 #[cfg(target_arch = "x86_64")]
-fn as_vectored_ok() {
+fn as_vectored_ok<D: Dom>() {
     use std::arch::x86_64::__m128;
-    let mut data = Backing::<f32>::any();
-    let (mut g, geo, base, len) = any_grid(data.window(any_len()));
+    let mut data = <D::Store<f32> as Store<f32>>::any();
+    let (mut g, geo, base, len) = any_grid::<_, D>(data.window(D::any_len()));
     let split_base = g.split_base;
-    // the backing array is 32-byte aligned and MAXBUF % 4 == 0: the element index decides alignment
-    let aligned = (MAXBUF - len + geo.off) % 4 == 0;
+    // the backing array is 32-byte aligned and D::MAXBUF % 4 == 0: the element index decides alignment
+    let aligned = (D::MAXBUF - len + geo.off) % 4 == 0;
     match g.as_vectored::<__m128>() {
         Some(mut v) => {
             assert!(aligned && geo.w % 4 == 0 && geo.stride % 4 == 0, "[C02] as_vectored is Some only for an aligned, lane-multiple geometry");
             assert!(v.ptr.as_ptr() == base.wrapping_add(geo.off) as *mut __m128 && v.width == geo.w / 4 && v.height == geo.h
                 && v.stride == geo.stride / 4 && v.split_base == split_base, "[C02] vector view: same origin, width and stride in vectors");
             // lemma_vectored: vector (x, y) is f32 elements (4x .. 4x+3, y) of the grid, all inside the buffer
-            let (x, y) = (small(), small());
+            let (x, y) = (D::small(), D::small());
             use_lemma!(lemma_vectored, !(x < geo.w / 4 && y < geo.h) || geo.cell(4 * x + 3, y) < len);
             match v.try_get_mut(x, y) {
                 Some(r) => {
@@ -779,7 +839,7 @@ fn as_vectored_ok() {
             }
             if let Some(row) = v.try_get_row_mut(y) {
                 assert!(row.len() == geo.w / 4 && row.as_mut_ptr() as *mut f32 == base.wrapping_add(geo.cell(0, y)));
-                let i = small();
+                let i = D::small();
                 if i < row.len() {
                     let _lanes: [f32; 4] = unsafe { std::mem::transmute(row[i]) };
                 }
@@ -804,47 +864,92 @@ fn obs_ptr_add_leaves_allocation() {
 }
 
 macro_rules! instantiate {
-    ($($name:ident = $body:expr;)*) => {$(
+    ($unwind:literal: $($name:ident = $body:expr;)*) => {$(
         #[kani::proof]
-        #[kani::unwind(14)]
+        #[kani::unwind($unwind)]
         fn $name() {
             $body
         }
     )*};
 }
 
-instantiate! {
-    ms_from_buf_i16 = from_buf_ok::<i16>();
-    ms_from_buf_f32 = from_buf_ok::<f32>();
-    ms_from_buf_rejects = from_buf_rejects::<i16>();
-    ms_subgrid_i16 = subgrid_ok::<i16>();
-    ms_subgrid_f32 = subgrid_ok::<f32>();
-    ms_subgrid_rejects = subgrid_rejects::<i16>();
-    ms_split_h_i16 = split_ok::<i16>(false, false);
-    ms_split_h_f32 = split_ok::<f32>(false, false);
-    ms_split_v_i16 = split_ok::<i16>(true, false);
-    ms_split_v_f32 = split_ok::<f32>(true, false);
-    ms_split_h_in_place_i16 = split_ok::<i16>(false, true);
-    ms_split_h_in_place_f32 = split_ok::<f32>(false, true);
-    ms_split_v_in_place_i16 = split_ok::<i16>(true, true);
-    ms_split_v_in_place_f32 = split_ok::<f32>(true, true);
-    ms_split_rejects = split_rejects::<i16>();
-    ms_merge_h_i16 = merge_ok::<i16>(false);
-    ms_merge_h_f32 = merge_ok::<f32>(false);
-    ms_merge_v_i16 = merge_ok::<i16>(true);
-    ms_merge_v_f32 = merge_ok::<f32>(true);
-    ms_merge_h_guard = merge_guard::<i16>(false);
-    ms_merge_v_guard = merge_guard::<i16>(true);
-    ms_groups_i16 = groups_ok::<i16>(false);
-    ms_groups_f32 = groups_ok::<f32>(false);
-    ms_groups_fixed_i16 = groups_ok::<i16>(true);
-    ms_groups_fixed_f32 = groups_ok::<f32>(true);
-    ms_groups_rejects = groups_rejects::<i16>();
-    ms_swap_i16 = swap_ok::<i16>();
-    ms_swap_f32 = swap_ok::<f32>();
-    ms_swap_rejects = swap_rejects::<i16>();
-    ms_reborrow_i16 = reborrow_ok::<i16>();
-    ms_reborrow_f32 = reborrow_ok::<f32>();
-    ms_into_i32 = into_i32_ok();
-    ms_as_vectored = as_vectored_ok();
+// quick tier: buffer <= 24 elements, 5-bit values, i16 (f32 for the f32-only API)
+instantiate! { 6:
+    ms_from_buf_q = from_buf_ok::<i16, Q>();
+    ms_from_buf_rejects = from_buf_rejects::<i16, Q>();
+    ms_subgrid_q = subgrid_ok::<i16, Q>();
+    ms_subgrid_rejects = subgrid_rejects::<i16, Q>();
+    ms_split_h_q = split_ok::<i16, Q>(false, false);
+    ms_split_v_q = split_ok::<i16, Q>(true, false);
+    ms_split_h_in_place_q = split_ok::<i16, Q>(false, true);
+    ms_split_v_in_place_q = split_ok::<i16, Q>(true, true);
+    ms_split_rejects = split_rejects::<i16, Q>();
+    ms_merge_h_q = merge_ok::<i16, Q>(false);
+    ms_merge_v_q = merge_ok::<i16, Q>(true);
+    ms_merge_h_guard = merge_guard::<i16, Q>(false);
+    ms_merge_v_guard = merge_guard::<i16, Q>(true);
+    ms_groups_5x3_by_2x2_q = groups_ok::<i16, Q, 5, 3, 2, 2>();
+    ms_groups_3x2_by_8x8_q = groups_ok::<i16, Q, 3, 2, 8, 8>();
+    ms_groups_4x3_by_1x2_q = groups_ok::<i16, Q, 4, 3, 1, 2>();
+    ms_groups_0x3_by_2x2_q = groups_ok::<i16, Q, 0, 3, 2, 2>();
+    ms_groups_fixed_2x2_q = groups_fixed_ok::<i16, Q, 2, 2>();
+    ms_groups_fixed_3x2_q = groups_fixed_ok::<i16, Q, 3, 2>();
+    ms_groups_fixed_1x3_q = groups_fixed_ok::<i16, Q, 1, 3>();
+    ms_groups_rejects_w = groups_rejects::<i16, Q, 0, 3>();
+    ms_groups_rejects_h = groups_rejects::<i16, Q, 2, 0>();
+    ms_swap_q = swap_ok::<i16, Q>();
+    ms_swap_rejects = swap_rejects::<i16, Q>();
+    ms_reborrow_q = reborrow_ok::<i16, Q>();
+    ms_into_i32_q = into_i32_ok::<Q>();
+    ms_as_vectored_q = as_vectored_ok::<Q>();
+    lemma_split_partition_q = lemma_split_partition::<Q>();
+    lemma_groups_partition_q = lemma_groups_partition::<Q>();
+    lemma_split_partition_t = lemma_split_partition::<T>();
+    lemma_groups_partition_t = lemma_groups_partition::<T>();
+}
+instantiate! { 34:
+    lemma_sub_q = lemma_sub::<Q>();
+    lemma_injective_q = lemma_injective::<Q>();
+    lemma_merge_q = lemma_merge::<Q>();
+    lemma_vectored_q = lemma_vectored::<Q>();
+}
+// thorough tier: buffer <= 48 elements, 6-bit values, i16 and f32
+instantiate! { 6:
+    ms_from_buf_i16 = from_buf_ok::<i16, T>();
+    ms_from_buf_f32 = from_buf_ok::<f32, T>();
+    ms_subgrid_i16 = subgrid_ok::<i16, T>();
+    ms_subgrid_f32 = subgrid_ok::<f32, T>();
+    ms_split_h_i16 = split_ok::<i16, T>(false, false);
+    ms_split_h_f32 = split_ok::<f32, T>(false, false);
+    ms_split_v_i16 = split_ok::<i16, T>(true, false);
+    ms_split_v_f32 = split_ok::<f32, T>(true, false);
+    ms_split_h_in_place_i16 = split_ok::<i16, T>(false, true);
+    ms_split_h_in_place_f32 = split_ok::<f32, T>(false, true);
+    ms_split_v_in_place_i16 = split_ok::<i16, T>(true, true);
+    ms_split_v_in_place_f32 = split_ok::<f32, T>(true, true);
+    ms_merge_h_i16 = merge_ok::<i16, T>(false);
+    ms_merge_h_f32 = merge_ok::<f32, T>(false);
+    ms_merge_v_i16 = merge_ok::<i16, T>(true);
+    ms_merge_v_f32 = merge_ok::<f32, T>(true);
+    ms_merge_h_guard_t = merge_guard::<f32, T>(false);
+    ms_merge_v_guard_t = merge_guard::<f32, T>(true);
+    ms_groups_7x5_by_3x2_f32 = groups_ok::<f32, T, 7, 5, 3, 2>();
+    ms_groups_9x4_by_4x4_i16 = groups_ok::<i16, T, 9, 4, 4, 4>();
+    ms_groups_fixed_2x2_f32 = groups_fixed_ok::<f32, T, 2, 2>();
+    ms_groups_fixed_3x3_i16 = groups_fixed_ok::<i16, T, 3, 3>();
+    ms_groups_fixed_4x2_f32 = groups_fixed_ok::<f32, T, 4, 2>();
+    ms_groups_fixed_0x2_i16 = groups_fixed_ok::<i16, T, 0, 2>();
+    ms_groups_fixed_2x0_i16 = groups_fixed_ok::<i16, T, 2, 0>();
+    ms_swap_i16 = swap_ok::<i16, T>();
+    ms_swap_f32 = swap_ok::<f32, T>();
+    ms_reborrow_i16 = reborrow_ok::<i16, T>();
+    ms_reborrow_f32 = reborrow_ok::<f32, T>();
+    ms_into_i32_t = into_i32_ok::<T>();
+    ms_as_vectored_t = as_vectored_ok::<T>();
+}
+instantiate! { 66:
+    lemma_sub_t = lemma_sub::<T>();
+    lemma_injective_t = lemma_injective::<T>();
+    lemma_merge_t = lemma_merge::<T>();
+    lemma_vectored_t = lemma_vectored::<T>();
 }
